@@ -27,7 +27,7 @@ TECHNIQUE = ('evaluated dispatcher tables and constant tables compared with tran
              'rules (must-follow / must-precede on per-function CFGs); ambient-source and set-order lint over the '
              'parse path; fragment-context vs. handler content-model agreement; insertion-mode transition table '
              '(allowed / required switches) over the resolved dispatcher call graph; guard partition of the '
-             'dispatcher and breakout conditions')
+             'dispatcher and breakout conditions; source evaluation (sa/classeval.py) of addFormattingElement (Noah\'s Ark), the table and frameset character handlers on model trees')
 CLAIM = ('Necessary structural conditions of WHATWG conformance, each over all code paths: the parser reads no '
          'ambient state; dispatcher tables are well formed; switching the tokenizer to RCDATA/RAWTEXT/script '
          'data is always paired with entering the text insertion mode; the formatting-element, scope-marker, '
